@@ -14,9 +14,13 @@ Curated == {
   [tr |-> <<<<0,0,0>>,<<1,0,0>>,<<1,1,1>>>>,           ch |-> <<1,0>>, fail |-> {<<1,0,0>>}],
   [tr |-> <<<<0,0,0>>,<<0,0,1>>,<<1,1,0>>>>,           ch |-> <<0,0>>, fail |-> {}],
   [tr |-> <<<<0,0,0>>,<<1,1,0>>,<<0,1,0>>>>,           ch |-> <<1,2>>, fail |-> {<<0,1,0>>}] }
-QuickShapes    == Curated
-ThoroughShapes == Curated \cup ShapesOf(3,1)
-PlanShapes     == ShapesOf(3,0)         \* for the MakeTasks/ChunkTasks decision table (no dynamics)
+Small == {
+  [tr |-> <<<<0,0,0>>,<<0,1,0>>,<<1,0,0>>>>, ch |-> <<1,1>>, fail |-> {}],
+  [tr |-> <<<<0,0,0>>,<<0,0,1>>>>,           ch |-> <<0,0>>, fail |-> {<<0,0,1>>}] }
+QuickShapes    == Small
+ThoroughShapes == Curated \cup Small \cup ShapesOf(2,1)
+
+C01QuickShapes == Curated \cup Small
 QuickCfgs    == {[p |-> 1, mt |-> 0, ip |-> TRUE], [p |-> 2, mt |-> 1, ip |-> FALSE]}
 ThoroughCfgs == {[p |-> 1, mt |-> 0, ip |-> TRUE], [p |-> 2, mt |-> 0, ip |-> FALSE], [p |-> 2, mt |-> 1, ip |-> FALSE], [p |-> 1, mt |-> 2, ip |-> FALSE]}
 =============================================================================
